@@ -555,6 +555,11 @@ mod huffman {
                 }
             }
             levels.sort_by(|x, y| x.0.cmp(&y.0));
+            // A lone symbol would get a zero-length code, which cannot be decoded.
+            let single = levels.len() == 1;
+            if single {
+                levels[0].0 = 1;
+            }
             let mut code: u64 = 0;
             let mut prev_level = 0;
             let mut encode = BTreeMap::new();
@@ -566,6 +571,10 @@ mod huffman {
                 }
                 encode.insert(sym.clone(), (level, code));
                 Self::insert_decode(&mut decode, sym, level, code << (64 - level));
+                if single {
+                    // The unused sibling code decodes to the same symbol to keep the table total.
+                    Self::insert_decode(&mut decode, sym, level, (code + 1) << (64 - level));
+                }
 
                 code += 1;
             }
